@@ -29,12 +29,14 @@ Inductive dexpr : Type := DLit (v : value) | DRef (n : string).
 Record sigT := mkSig { s_params : list (string * option dexpr); s_rest : option string }.
 
 (* a call: explicit positional arguments, explicit named arguments, then optionally
-   a list splat `$l...` and a map splat `$m...` (string keys) *)
+   a list splat `$l...`, a splatted argument list `$args...` (the rest parameter of an enclosing
+   callable: positional values and keywords) and a map splat `$m...` (string keys) *)
 Record callT := mkCall {
   c_pos : list value;
   c_named : list (string * value);
   c_lsplat : option value;
-  c_msplat : option (list (string * value)) }.
+  c_msplat : option (list (string * value));
+  c_asplat : option (list value * list (string * value)) }.
 
 Definition named := list (string * value).     (* OrderMap<Name, Value>, keys normalised *)
 
@@ -83,10 +85,25 @@ Definition add_map (m : named) (o : option (list (string * value))) : named :=
   | Some kvs => fold_left (fun acc kv => fst (n_insert acc (norm (fst kv)) (snd kv))) kvs m
   end.
 
+(* the css::Value::ArgList arm: positional values are appended, every keyword is inserted and an
+   already present name is Invalid::DuplicateArgument (the same loop as CallArgs::new) *)
+Definition arglist_pos (o : option (list value * list (string * value))) : list value :=
+  match o with Some (p, _) => p | None => [] end.
+Definition add_arglist (m : named) (o : option (list value * list (string * value))) : option named :=
+  match o with
+  | None => Some m
+  | Some (_, kw) => explicit_named kw m
+  end.
+
 Definition call_evaluate (c : callT) : option (list value * named) :=
   match explicit_named (c_named c) [] with
   | None => None
-  | Some n => Some (c_pos c ++ splat_items (c_lsplat c), add_map n (c_msplat c))
+  | Some n =>
+      match add_arglist n (c_asplat c) with
+      | None => None
+      | Some n' =>
+          Some (c_pos c ++ splat_items (c_lsplat c) ++ arglist_pos (c_asplat c), add_map n' (c_msplat c))
+      end
   end.
 
 (* what a rest parameter is bound to *)
